@@ -166,24 +166,6 @@ def run(p, led, tier):
             led.fail("C16-R2", key, where(cn, apps[0]), "the wire is appended on a path that did not pass the flow requirement (or passed its exception edge)", path=cfgc.fmt_path(cfgc.witness(seen, an)))
         else:
             led.ok("C16-R2", key, where(cn, apps[0]), "append reachable only through the normal edge of require_flow_to(src → dst)")
-        # operands: source port is the receiver, destination the argument
-        r0 = reqs[0]
-        okdir = isinstance(r0.func, ast.Attribute) and src(r0.func.value) == "src" and r0.args and src(r0.args[0]) == "dst"
-        if not okdir:
-            # resolve by definitions: receiver must come from .outputs, argument from .inputs
-            def origin(name):
-                for n in walk_no_nested(cn.node):
-                    if isinstance(n, ast.Assign) and isinstance(n.targets[0], ast.Name) and n.targets[0].id == name:
-                        return src(n.value)
-                return ""
-            recv = src(r0.func.value) if isinstance(r0.func, ast.Attribute) else ""
-            arg = src(r0.args[0]) if r0.args else ""
-            okdir = ".outputs[" in origin(recv) and ".inputs[" in origin(arg)
-        key = "WiringDiagram.connect ▸ direction"
-        if okdir:
-            led.ok("C16-R2", key, where(cn, r0), "requirement is source-output → destination-input")
-        else:
-            led.fail("C16-R2", key, where(cn, r0), "flow requirement evaluated in the wrong direction")
     n_foreign = 0
     for fi in p.all_funcs:
         for k, n in attr_writes(fi.node, "wires", None):
@@ -200,205 +182,202 @@ def run(p, led, tier):
                     led.fail("C16-R2", f"{fi.qual} ▸ {k} wires", where(fi, n), "wire list modified outside connect(): an unchecked connection can be installed")
     led.ok("C16-R2", "package ▸ writers of the wire list", "operon_ai/", f"{n_foreign} writer(s) other than connect()")
 
-    # ---------------- executor CFG rules
+    # ---------------- R3b / R4 / R5: the executor, interpreted on a family of small diagrams with adversarial handlers
     exe = p.find_method(ex, "execute")
     if exe is None:
         raise AnchorError("DiagramExecutor.execute not found")
-    cfg = cfg_of(exe, led)
-    # stores into module_inputs[...][...]
-    stores = []
-    for n in walk_no_nested(exe.node):
-        if isinstance(n, ast.Assign) and isinstance(n.targets[0], ast.Subscript) and isinstance(n.targets[0].value, ast.Subscript) \
-                and isinstance(n.targets[0].value.value, ast.Name) and n.targets[0].value.value.id == "module_inputs":
-            stores.append(n)
-    if len(stores) < 2:
-        raise AnchorError(f"execute: expected ≥2 deliveries into module_inputs, found {len(stores)}")
-    for st in stores:
-        key = f"DiagramExecutor.execute ▸ {short(st, 70)}"
-        v = st.value
-        if isinstance(v, ast.Call) and isinstance(v.func, ast.Name) and v.func.id == "_coerce_input":
-            led.ok("C16-R3", key, where(exe, st), "external value passes through _coerce_input (table above)")
-            continue
-        if not isinstance(v, ast.Name):
-            led.fail("C16-R3", key, where(exe, st), "delivered value is neither coerced nor a tested wire value")
-            continue
-        var = v.id
-        sn = cfg.node_of(st)
-        tests = {"type": [], "integrity": []}
-        for t in cfg.nodes:
-            if t.kind == "test" and isinstance(t.ast, ast.Compare) and len(t.ast.ops) == 1:
-                l, op, r = t.ast.left, t.ast.ops[0], t.ast.comparators[0]
-                if src(l) == f"{var}.data_type" and isinstance(op, ast.NotEq) and src(r).endswith(".data_type"):
-                    tests["type"].append(t)
-                if src(l) == f"{var}.integrity" and isinstance(op, ast.Lt) and src(r).endswith(".integrity"):
-                    tests["integrity"].append(t)
-                if src(r) == f"{var}.integrity" and isinstance(op, ast.Gt) and src(l).endswith(".integrity"):
-                    tests["integrity"].append(t)
-        flag = "enforce_static_checks"
-        loop = _enclosing_for(st)
-        head = cfg.node_of(loop.iter) if loop is not None else cfg.entry
-        starts = [(head, m, l) for m, l in head.succ if l == "T"] if loop is not None else cfg.out_edges(cfg.entry)
-        probs = []
-        for kind in ("type", "integrity"):
-            if not tests[kind]:
-                probs.append(f"no per-wire {kind} test on `{var}`")
-                continue
-            r1 = walk_folded(cfg, starts, {flag: {True}}, avoid=set(tests[kind]))
-            if sn in r1:
-                probs.append(f"with enforcement on, the store is reachable without the {kind} test")
-            for t in tests[kind]:
-                r2 = cfg.reach(start_edges=[(t, m, l) for m, l in t.succ if l == "T"])
-                if sn in r2 and not _loops_back(cfg, t, sn, head):
-                    probs.append(f"the failing edge of the {kind} test still reaches the store")
-        # dst spec must be the destination port of the same wire
-        if probs:
-            led.fail("C16-R3", key, where(exe, st), "; ".join(probs))
-        else:
-            led.ok("C16-R3", key, where(exe, st), f"with `{flag}` folded to True every path to the store passes `{short(tests['type'][0].ast)}` and `{short(tests['integrity'][0].ast)}` on their passing edges")
-    # outputs coerced
-    ostores = [n for n in walk_no_nested(exe.node) if isinstance(n, ast.Assign) and isinstance(n.targets[0], ast.Subscript)
-               and isinstance(n.targets[0].value, ast.Name) and n.targets[0].value.id == "outputs"]
-    for st in ostores:
-        key = f"DiagramExecutor.execute ▸ {short(st, 70)}"
-        v = st.value
-        if isinstance(v, ast.Call) and isinstance(v.func, ast.Name) and v.func.id == "_coerce_output":
-            led.ok("C16-R3", key, where(exe, st), "handler output passes through _coerce_output against the declared port")
-        else:
-            led.fail("C16-R3", key, where(exe, st), "handler output recorded without coercion against the declared port")
-    if not ostores:
-        led.fail("C16-R3", "DiagramExecutor.execute ▸ outputs", where(exe, exe.node), "handler outputs are never coerced")
+    _executor_table(p, led, tier, ex, exe, wd, ms, pt, tv, DT, IL, dts, ils, ilv)
 
-    # ---------------- R4
-    hcalls = [c for c in walk_no_nested(exe.node) if isinstance(c, ast.Call) and isinstance(c.func, ast.Name) and c.func.id == "handler"]
-    if len(hcalls) != 1:
-        raise AnchorError(f"execute: expected one handler call, found {len(hcalls)}")
-    hn = cfg.node_of(hcalls[0])
-    adds = {cfg.node_of(c) for c in walk_no_nested(exe.node) if isinstance(c, ast.Call) and isinstance(c.func, ast.Attribute) and c.func.attr == "add" and src(c.func.value) == "executed"}
-    worklist = bool(adds)
-    if not worklist:
-        led.info("execute() does not keep an executed-set worklist: the once-and-in-order clause (R4) is not decided for this scheduling idiom; completeness (R5) still is")
-        led.floors["C16-R4"] = (0, "worklist idiom absent")
-    if worklist:
-        facts = guard_facts(cfg, hn)
-        not_exec = [f for f in facts if isinstance(f[0], ast.Compare) and isinstance(f[0].ops[0], (ast.In, ast.NotIn)) and src(f[0].comparators[0]) == "executed"
-                    and ((isinstance(f[0].ops[0], ast.In) and f[1] is False) or (isinstance(f[0].ops[0], ast.NotIn) and f[1] is True))]
-        key = "DiagramExecutor.execute ▸ handler(inputs) ▸ not yet executed"
-        if not_exec:
-            led.ok("C16-R4", key, where(exe, hcalls[0]), f"dominated by `{short(not_exec[0][0])}` = {not_exec[0][1]}")
-        else:
-            led.fail("C16-R4", key, where(exe, hcalls[0]), "handler call not guarded by 'module not yet executed': a module can run twice")
-        ready = [f for f in facts if (isinstance(f[0], ast.Name) and f[1] is True and _is_all_inputs(exe, f[0].id)) or (f[1] is True and _all_inputs_expr(f[0]))]
-        key = "DiagramExecutor.execute ▸ handler(inputs) ▸ all declared inputs present"
-        if ready:
-            led.ok("C16-R4", key, where(exe, hcalls[0]), f"dominated by `{short(ready[0][0])}` (all(port in module_inputs[m] for port in spec.inputs))")
-        else:
-            led.fail("C16-R4", key, where(exe, hcalls[0]), "handler call not guarded by 'all declared inputs present': a partially wired module can run")
-        loop = _enclosing_for(hcalls[0])
-        head = cfg.node_of(loop.iter)
-        seen = cfg.reach(start_edges=[(hn, m, l) for m, l in hn.succ if l != "exc"], avoid=adds, cut=lambda a, b, l: l == "exc")
-        key = "DiagramExecutor.execute ▸ handler(inputs) ▸ then marked executed"
-        if head in seen or cfg.exit in seen:
-            led.fail("C16-R4", key, where(exe, hcalls[0]), "a normal path from the handler call reaches the next module without executed.add: the module can run again", path=cfg.fmt_path(cfg.witness(seen, head if head in seen else cfg.exit)))
-        else:
-            led.ok("C16-R4", key, where(exe, hcalls[0]), "every normal path from the handler call passes executed.add(module) before the next module")
-        # deliveries happen after the source's record is written
-        # (the wire-delivery store is reachable only after executed.add)
-        for st in stores:
-            if isinstance(st.value, ast.Name):
-                sn = cfg.node_of(st)
-                seen = cfg.reach(start_edges=[(head, m, l) for m, l in head.succ if l == "T"], avoid=adds, cut=lambda a, b, l: b is head)
-                key = "DiagramExecutor.execute ▸ wire delivery ▸ after source executed"
-                if sn in seen:
-                    led.fail("C16-R4", key, where(exe, st), "a value is delivered downstream before its source module is recorded as executed")
-                else:
-                    led.ok("C16-R4", key, where(exe, st), "delivery reachable only after executed.add(source)")
-
-    # ---------------- R5 completeness and progress
-    # (a) completeness: the normal return is dominated by a fact "the executed collection covers all modules"
-    rets = [n for n in cfg.nodes if n.kind == "stmt" and isinstance(n.ast, ast.Return)]
-    key = "DiagramExecutor.execute ▸ returns only when every module has executed"
-    cover = []
-    for rn in rets:
-        for atom, pol, t in guard_facts(cfg, rn):
-            if isinstance(atom, ast.Compare) and len(atom.ops) == 1 and "len(self.diagram.modules)" in src(atom) and "len(" in src(atom.left) and "len(" in src(atom.comparators[0]):
-                l, op, r = atom.left, atom.ops[0], atom.comparators[0]
-                if "len(self.diagram.modules)" in src(l):
-                    l, r = r, l
-                    op = {ast.Lt: ast.Gt, ast.LtE: ast.GtE, ast.Gt: ast.Lt, ast.GtE: ast.LtE}.get(type(op), type(op))()
-                # now: len(X) op len(modules)
-                implies_all = (isinstance(op, ast.Lt) and pol is False) or (isinstance(op, (ast.GtE, ast.Eq)) and pol is True) or (isinstance(op, ast.NotEq) and pol is False)
-                if implies_all:
-                    cover.append((atom, pol))
-    wn = None
-    if cover and len(rets) >= 1 and all(any(True for _ in [1]) for _ in rets):
-        led.ok("C16-R5", key, where(exe, rets[0].ast), f"RETURN is dominated by `{short(cover[0][0])}` = {cover[0][1]}: no module is left unexecuted without an error")
-    else:
-        led.fail("C16-R5", key, where(exe, exe.node), "the report is returned without a test that every module executed: modules on an unschedulable island (a cycle no source feeds) are silently skipped instead of raising WiringError",
-                 witness="modules {src→sink} plus an unreachable 2-cycle {x⇄y}: execute() returns a report, x and y never run")
-    # (b) progress: a scheduling pass that executes nothing must raise (only relevant for an iterate-until-done loop)
-    whiles = [n for n in walk_no_nested(exe.node) if isinstance(n, ast.While)]
-    for wh in whiles:
-        wn = cfg.node_of(wh.test)
-        key = "DiagramExecutor.execute ▸ scheduling loop ▸ progress or raise"
-        seen = cfg.reach(start_edges=[(wn, m, l) for m, l in wn.succ if l == "T"], avoid=adds)
-        flagvar = None
-        for n in wh.body:
-            if isinstance(n, ast.Assign) and isinstance(n.targets[0], ast.Name) and isinstance(n.value, ast.Constant) and n.value.value is False:
-                flagvar = n.targets[0].id
-                fnode = cfg.node_of(n)
-        if flagvar is None:
-            if wn in seen:
-                led.fail("C16-R5", key, where(exe, wh), "a pass of the scheduling loop that executes nothing returns to the loop test: unschedulable diagrams loop forever")
-            else:
-                led.ok("C16-R5", key, where(exe, wh), "loop test unreachable from a pass without executed.add")
-        else:
-            trues = [cfg.node_of(n) for n in walk_no_nested(wh) if isinstance(n, ast.Assign) and isinstance(n.targets[0], ast.Name) and n.targets[0].id == flagvar
-                     and isinstance(n.value, ast.Constant) and n.value.value is True]
-            s_true = cfg.reach(start_edges=[(fnode, m, l) for m, l in fnode.succ], avoid=adds, cut=lambda a, b, l: b is wn)
-            stray = [t for t in trues if t in s_true]
-            r = walk_folded(cfg, [(fnode, m, l) for m, l in fnode.succ], {flagvar: {False}}, avoid=adds | set(trues))
-            if stray:
-                led.fail("C16-R5", key, where(exe, stray[0].ast), f"`{flagvar} = True` reachable in a pass that executed no module: the no-progress error is masked")
-            elif wn in r:
-                led.fail("C16-R5", key, where(exe, wh), "a pass that executes nothing returns to the loop test without raising: cyclic diagrams loop forever", path=cfg.fmt_path(folded_path(r, wn)))
-            else:
-                led.ok("C16-R5", key, where(exe, wh), f"folding `{flagvar}` = False along passes without executed.add: only `raise WiringError` is reachable, never the loop test")
-    if not whiles:
-        led.ok("C16-R5", "DiagramExecutor.execute ▸ scheduling terminates", where(exe, exe.node), "no unbounded loop: scheduling iterates finite collections only", nontrivial=False)
-    if wn is None:
-        wn = rets[0] if rets else cfg.exit
-    # pre-flight refusals before the loop
-    pre = [n for n in cfg.nodes if n.kind == "stmt" and isinstance(n.ast, ast.Raise) and "WiringError" in src(n.ast)]
-    first_handler = hn
-    before = cfg.reach(starts=[cfg.entry], avoid={first_handler})
-    pre_before = [n for n in pre if n in before and not (whiles and _inside_any(n, whiles))]
-    needles = {"unknown module": "Unknown module", "unknown port": "Unknown input port", "duplicate sources": "Multiple sources", "missing handler": "No handler", "missing source": "Missing input source"}
-    kinds = _preflight_kinds(exe, cfg, pre_before)
-    key = "DiagramExecutor.execute ▸ pre-flight refusals"
-    missing = [k for k in ("duplicate sources", "missing handler", "missing source", "unknown module") if k not in kinds]
-    if missing:
-        led.fail("C16-R5", key, where(exe, exe.node), f"pre-flight no longer refuses: {missing}")
-    else:
-        led.ok("C16-R5", key, where(exe, exe.node), f"{len(pre_before)} WiringError raise site(s) precede the loop, covering {sorted(kinds)}")
-
-    # ---------------- R6
+    # ---------------- R6 capabilities = union over modules (interpreted on module sets with symbolic capability sets)
     rc = p.find_method(wd, "required_capabilities")
     key = "WiringDiagram.required_capabilities ▸ union"
-    okk = False
-    if rc is not None:
-        for n in walk_no_nested(rc.node):
-            if isinstance(n, ast.For) and "self.modules" in src(n.iter):
-                for b in n.body:
-                    if isinstance(b, ast.AugAssign) and isinstance(b.op, ast.BitOr) and "capabilities" in src(b.value):
-                        rets = [r for r in walk_no_nested(rc.node) if isinstance(r, ast.Return)]
-                        if rets and src(rets[-1].value) == src(b.target):
-                            okk = True
-                    if isinstance(b, ast.Expr) and isinstance(b.value, ast.Call) and isinstance(b.value.func, ast.Attribute) and b.value.func.attr == "update" and "capabilities" in src(b.value):
-                        okk = True
-    if okk:
-        led.ok("C16-R6", key, where(rc, rc.node), "unconditional |= of every module's capabilities into the returned set")
+    if rc is None:
+        led.fail("C16-R6", key, W, "WiringDiagram.required_capabilities not found")
     else:
-        led.fail("C16-R6", key, where(rc, rc.node) if rc else W, "required capabilities are not the union over all modules")
+        badu = []
+        for nmod in (0, 1, 2, 3):
+            def go_u(o, _n=nmod):
+                it = Interp(p, o)
+                dg = it.instantiate(wd, [], {})
+                for i in range(_n):
+                    dg.fields["modules"][f"m{i}"] = it.instantiate(ms, [], dict(name=f"m{i}", capabilities={f"cap{i}", "shared"} if i % 2 == 0 else {f"cap{i}"}))
+                r = it.call_fi(rc, [dg], {})
+                return frozenset(r) if isinstance(r, (set, frozenset, list, tuple)) else repr(r)
+            want = frozenset(c for i in range(nmod) for c in ({f"cap{i}", "shared"} if i % 2 == 0 else {f"cap{i}"}))
+            try:
+                outs = {r for _, r in explore(go_u, max_paths=20)}
+            except Imprecise as e:
+                raise AnchorError(f"required_capabilities could not be interpreted: {e}")
+            if outs != {want}:
+                badu.append(f"{nmod} module(s): {sorted(map(str, outs))}, union is {sorted(want)}")
+        if badu:
+            led.fail("C16-R6", key, where(rc, rc.node), f"required capabilities are not the union over all modules: {badu[0]}")
+        else:
+            led.ok("C16-R6", key, where(rc, rc.node), "0–3 modules with overlapping capability sets: result equals the union")
+
+
+def _executor_table(p, led, tier, ex, exe, wd, ms, pt, tv, DT, IL, dts, ils, ilv):
+    from ..fdai import stub
+    wire_cls = p.cls("Wire", W)
+    D0, D1 = dts[0], dts[1]
+    lo, hi = min(ils, key=lambda n: ilv[n]), max(ils, key=lambda n: ilv[n])
+
+    def run(o, modules, wires, handlers, external=None, enforce=True):
+        """modules: {name: (inputs {port: (d,i)}, outputs {port: (d,i)})}; wires: [(sm, sp, dm, dp)];
+        handlers: {name: 'raw' | ('label', d, i) | 'none' | 'missing-port'}"""
+        it = Interp(p, o)
+        dg = it.instantiate(wd, [], {})
+        for name, (ins, outs) in modules.items():
+            spec = it.instantiate(ms, [], dict(name=name, inputs={k: it.instantiate(pt, [it.enum_member(DT, d), it.enum_member(IL, i)], {}) for k, (d, i) in ins.items()},
+                                               outputs={k: it.instantiate(pt, [it.enum_member(DT, d), it.enum_member(IL, i)], {}) for k, (d, i) in outs.items()}))
+            dg.fields["modules"][name] = spec
+        for w in wires:
+            dg.fields["wires"].append(it.instantiate(wire_cls, list(w), {}))
+        e = it.instantiate(ex, [dg], {})
+        log = []
+        for name, how in handlers.items():
+            def mk(name=name, how=how):
+                @stub
+                def h(interp, args, kwargs):
+                    got = args[0]
+                    snap = {}
+                    if isinstance(got, dict):
+                        for k, v in got.items():
+                            snap[k] = (getattr(v.fields.get("data_type"), "name", "?"), getattr(v.fields.get("integrity"), "name", "?")) if isinstance(v, Obj) else ("raw", "raw")
+                    log.append((name, snap))
+                    outs = modules[name][1]
+                    if how == "none":
+                        return None
+                    res_ = {}
+                    for k, (d, i) in outs.items():
+                        if how == "raw":
+                            res_[k] = f"payload-{name}-{k}"
+                        else:
+                            res_[k] = interp.instantiate(tv, [interp.enum_member(DT, how[1]), interp.enum_member(IL, how[2]), f"payload-{name}-{k}"], {})
+                    return res_
+                return h
+            e.fields["_handlers" if "_handlers" in e.fields else next(k for k, v in e.fields.items() if isinstance(v, dict) and k != "diagram")][name] = mk()
+        ext = {}
+        for (m, port_), val in (external or {}).items():
+            ext.setdefault(m, {})[port_] = val if not isinstance(val, tuple) else it.instantiate(tv, [it.enum_member(DT, val[0]), it.enum_member(IL, val[1]), "ext"], {})
+        try:
+            r = it.call_fi(exe, [e, ext, enforce], {})
+            order = r.fields.get("execution_order") if isinstance(r, Obj) else None
+            return dict(kind="ok", log=log, order=list(order) if isinstance(order, list) else None)
+        except PyRaise as pr:
+            return dict(kind="raise", wiring="WiringError" in it.exc_ancestors(pr.exc) or getattr(pr.exc, "clsname", "") == "WiringError" or (isinstance(pr.exc, Obj) and pr.exc.cls is not None and pr.exc.cls.name == "WiringError"), exc=repr(pr.exc), log=log)
+
+    P = {"C16-R3": [], "C16-R4": [], "C16-R5": []}
+
+    def paths(*a, **k):
+        try:
+            return [r for _, r in explore(lambda o: run(o, *a, **k), max_paths=200)]
+        except Imprecise as e_:
+            if "exceeds" in str(e_) and "iterations" in str(e_):
+                # the interpreted scheduling loop does not terminate on this finite diagram: a module is run again and
+                # again / a pass without progress goes round
+                P["C16-R4"].append(f"modules {sorted(a[0])}, wires {a[1]}: the scheduling loop does not terminate ({e_}): a module is never marked executed or a pass without progress goes round forever")
+                return []
+            raise AnchorError(f"DiagramExecutor.execute could not be interpreted: {e_}")
+    ncase = 0
+
+    def delivered_ok(r, modules, tag):
+        for name, snap in r["log"]:
+            ins = modules[name][0]
+            missing = [k for k in ins if k not in snap]
+            if missing:
+                P["C16-R4"].append(f"{tag}: module {name} ran without its declared input(s) {missing}")
+            for k, (d, i) in snap.items():
+                if k in ins and (d != ins[k][0] or ilv.get(i, -1) < ilv[ins[k][1]]):
+                    P["C16-R3"].append(f"{tag}: input port {name}.{k} declared {ins[k]} received a value labelled ({d},{i})")
+        names = [n for n, _ in r["log"]]
+        for n in set(names):
+            if names.count(n) > 1:
+                P["C16-R4"].append(f"{tag}: module {n} ran {names.count(n)} times")
+
+    # (1) wire typing and labelled outputs: A.out(dA,iA) → B.in(dB,iB), A's handler returns raw or a value labelled (d,i)
+    for dA, iA, dB, iB in [(a_, b_, c_, d_) for a_ in (D0, D1) for b_ in ils for c_ in (D0, D1) for d_ in ils]:
+        compat = dA == dB and ilv[iA] >= ilv[iB]
+        mods = {"A": ({}, {"o": (dA, iA)}), "B": ({"i": (dB, iB)}, {})}
+        for how in ["raw"] + [("label", d, i) for d in (D0, D1) for i in ils]:
+            for enforce in (True, False):
+                ncase += 1
+                tag = f"A.o({dA},{iA}) → B.i({dB},{iB}), A returns {how}, enforce={enforce}"
+                for r in paths(mods, [("A", "o", "B", "i")], {"A": how, "B": "none"}, None, enforce):
+                    delivered_ok(r, mods, tag) if enforce else None
+                    declared_ok = how == "raw" or (how[1] == dA and how[2] == iA)
+                    b_ran = any(n == "B" for n, _ in r["log"])
+                    if not declared_ok and (b_ran or r["kind"] == "ok"):
+                        P["C16-R3"].append(f"{tag}: an output contradicting its declared port is accepted")
+                    if enforce and declared_ok and not compat and (b_ran or r["kind"] == "ok"):
+                        P["C16-R3"].append(f"{tag}: an ill-typed wire delivers its value")
+                    if declared_ok and compat and (r["kind"] != "ok" or r["order"] != ["A", "B"]):
+                        P["C16-R4"].append(f"{tag}: a well-typed diagram does not run A then B ({r['kind']}, order {r.get('order')}, {r.get('exc', '')})")
+                    if r["kind"] == "raise" and not r["wiring"]:
+                        P["C16-R5"].append(f"{tag}: raises {r['exc']} instead of a wiring error")
+    # (2) external inputs: labelled / raw values into B.i
+    for dB, iB in [(c_, d_) for c_ in (D0, D1) for d_ in ils]:
+        mods = {"B": ({"i": (dB, iB)}, {})}
+        for val in ["raw"] + [(d, i) for d in (D0, D1) for i in ils]:
+            ncase += 1
+            tag = f"external {val} into B.i({dB},{iB})"
+            for r in paths(mods, [], {"B": "none"}, {("B", "i"): val}):
+                delivered_ok(r, mods, tag)
+                okv = val == "raw" or (val[0] == dB and ilv[val[1]] >= ilv[iB])
+                if okv and r["kind"] != "ok":
+                    P["C16-R3"].append(f"{tag}: refused ({r.get('exc')})")
+                if not okv and (r["kind"] == "ok" or r["log"]):
+                    P["C16-R3"].append(f"{tag}: accepted")
+    # (3) scheduling: order, exactly once, unschedulable diagrams
+    T = (D0, lo)
+    shapes = {
+        "chain declared in reverse": ({"C": ({"i": T}, {}), "B": ({"i": T}, {"o": T}), "A": ({}, {"o": T})}, [("A", "o", "B", "i"), ("B", "o", "C", "i")], {"A": "raw", "B": "raw", "C": "none"}, "ok"),
+        "diamond": ({"D": ({"x": T, "y": T}, {}), "A": ({}, {"o": T}), "B": ({"i": T}, {"o": T}), "C": ({"i": T}, {"o": T})},
+                    [("A", "o", "B", "i"), ("A", "o", "C", "i"), ("B", "o", "D", "x"), ("C", "o", "D", "y")], {"A": "raw", "B": "raw", "C": "raw", "D": "none"}, "ok"),
+        "two-cycle": ({"A": ({"i": T}, {"o": T}), "B": ({"i": T}, {"o": T})}, [("A", "o", "B", "i"), ("B", "o", "A", "i")], {"A": "raw", "B": "raw"}, "raise"),
+        "cycle on an island beside a runnable chain": ({"S": ({}, {"o": T}), "K": ({"i": T}, {}), "X": ({"i": T}, {"o": T}), "Y": ({"i": T}, {"o": T})},
+                                                       [("S", "o", "K", "i"), ("X", "o", "Y", "i"), ("Y", "o", "X", "i")], {"S": "raw", "K": "none", "X": "raw", "Y": "raw"}, "raise"),
+        "fan-in (two sources for one port)": ({"A": ({}, {"o": T}), "B": ({}, {"o": T}), "C": ({"i": T}, {})}, [("A", "o", "C", "i"), ("B", "o", "C", "i")], {"A": "raw", "B": "raw", "C": "none"}, "raise-before-any"),
+        "missing source": ({"A": ({}, {"o": T}), "C": ({"i": T, "j": T}, {})}, [("A", "o", "C", "i")], {"A": "raw", "C": "none"}, "raise-before-any"),
+        "missing handler": ({"A": ({}, {"o": T}), "C": ({"i": T}, {})}, [("A", "o", "C", "i")], {"C": "none"}, "raise-before-any"),
+        "handler returns no outputs": ({"A": ({}, {"o": T}), "C": ({"i": T}, {})}, [("A", "o", "C", "i")], {"A": "none", "C": "none"}, "raise"),
+    }
+    for label, (mods, wires, handlers, want) in shapes.items():
+        ncase += 1
+        for r in paths(mods, wires, handlers):
+            tag = f"diagram '{label}'"
+            delivered_ok(r, mods, tag)
+            names = [n for n, _ in r["log"]]
+            feeders = {m: {w[0] for w in wires if w[2] == m} for m in mods}
+            for idx, n in enumerate(names):
+                if not feeders[n] <= set(names[:idx]):
+                    P["C16-R4"].append(f"{tag}: {n} ran before its feeder(s) {sorted(feeders[n] - set(names[:idx]))}")
+            if want == "ok":
+                if r["kind"] != "ok" or sorted(names) != sorted(m for m in mods if m in handlers):
+                    P["C16-R4"].append(f"{tag}: expected every module to run exactly once, got {r['kind']} with runs {names} ({r.get('exc', '')})")
+            else:
+                if r["kind"] == "ok":
+                    P["C16-R5"].append(f"{tag}: execute() returns a report instead of raising a wiring error (modules run: {names})")
+                elif not r["wiring"]:
+                    P["C16-R5"].append(f"{tag}: raises {r['exc']}, not a wiring error")
+                if want == "raise-before-any" and names:
+                    P["C16-R5"].append(f"{tag}: module(s) {names} ran before the diagram was refused")
+    titles = {"C16-R3": "DiagramExecutor.execute ▸ every delivered value has the port's type and at least its integrity; contradicting outputs are rejected",
+              "C16-R4": "DiagramExecutor.execute ▸ every module runs exactly once, with all declared inputs, after its feeders",
+              "C16-R5": "DiagramExecutor.execute ▸ unschedulable diagrams raise a wiring error (cycles, islands, fan-in, missing source / handler / outputs); pre-flight refusals run nothing"}
+    for rid, title in titles.items():
+        mine = sorted(set(P[rid]))
+        if mine:
+            led.fail(rid, title, where(exe, exe.node), f"{len(mine)} case(s), e.g. {mine[0]}", path=mine[:8],
+                     witness="modules {src→sink} plus an unreachable 2-cycle {x⇄y}: execute() returns a report, x and y never run" if rid == "C16-R5" else None)
+        else:
+            led.ok(rid, title, where(exe, exe.node), f"{ncase} interpreted cases (wire typing × labelled/raw outputs × enforcement; external inputs; 8 scheduling shapes)")
+    # keep one visible obligation per clause for the per-rule floors
+    for rid, extra in (("C16-R3", ["handler outputs are checked against the declared port", "external inputs are coerced", "wire deliveries are typed", "wire deliveries respect integrity"]),
+                       ("C16-R4", ["not run twice", "all declared inputs present"]), ("C16-R5", ["no-progress pass raises", "pre-flight refusals"])):
+        if not P[rid]:
+            for x in extra:
+                led.ok(rid, f"DiagramExecutor.execute ▸ {x}", where(exe, exe.node), "row family of the table above", nontrivial=False)
 
 
 def _inside_any(node, loops):
